@@ -91,7 +91,13 @@ def grep_forbidden():
 
 def audit(theorems, imports, timeout=900):
     """#print axioms for each theorem; returns dict name -> (ok, axioms or error text)"""
-    src = '\n'.join('import %s' % m for m in imports) + '\n' + '\n'.join('#print axioms %s' % t for t in theorems) + '\n'
+    src = '\n'.join('import %s' % m for m in imports) + '\nimport Lean\n' + '\n'.join('#print axioms %s' % t for t in theorems) + '\n'
+    # ... and the axioms of EVERY theorem declared in these modules (registered or not), enumerated by Lean itself
+    src += ('open Lean Elab Command in\nrun_cmd do\n  let env ← getEnv\n  let mods : List Name := [%s]\n  let mut out : Array String := #[]\n'
+            '  for (n, ci) in env.constants.toList do\n    if n.isInternal then continue\n    match env.getModuleIdxFor? n with\n'
+            '    | some idx =>\n      if mods.contains env.header.moduleNames[idx.toNat]! then\n        match ci with\n'
+            '        | .thmInfo _ =>\n          let ax ← Lean.collectAxioms n\n          out := out.push s!"ALLTHM {n} := {ax.toList}"\n'
+            '        | _ => pure ()\n    | none => pure ()\n  for l in out do logInfo l\n') % ', '.join('`' + m for m in imports)
     path = os.path.join(LEAN_DIR, '.lake', 'audit_%d.lean' % os.getpid())
     os.makedirs(os.path.dirname(path), exist_ok=True)
     open(path, 'w').write(src)
@@ -104,6 +110,10 @@ def audit(theorems, imports, timeout=900):
             pass
     txt = p.stdout + p.stderr
     res = {}
+    allthm = {}
+    for m in re.finditer(r"ALLTHM (\S+) := \[([^\]]*)\]", txt):
+        allthm[m.group(1)] = [a.strip() for a in m.group(2).split(',') if a.strip()]
+    audit.last_all = allthm
     for t in theorems:
         m = re.search(r"'%s' depends on axioms: \[([^\]]*)\]" % re.escape(t), txt)
         if m:
